@@ -141,6 +141,9 @@ type UDPRecord struct {
 	Len      int
 }
 
+// Debug logs every fragment (debugging aid).
+var Debug bool
+
 // W is the network of the current process (one world per process).
 var W *Net
 
@@ -850,6 +853,9 @@ func (c *tcpConn) send(b []byte) {
 		h.lastArr = arr
 		h.inflight += len(frag)
 		h.mu.Unlock()
+		if Debug {
+			simrt.Logf("net dbg send conn#%d side%d %d bytes arr=%v", c.pair.ID, c.side, len(frag), arr)
+		}
 		c.deliverAt(arr-now, frag)
 	}
 }
@@ -898,6 +904,9 @@ func (c *tcpConn) pump() {
 		moved = true
 	}
 	h.mu.Unlock()
+	if Debug {
+		simrt.Logf("net dbg pump conn#%d side%d moved=%v queue=%d", c.pair.ID, c.side, moved, len(h.queue))
+	}
 	if moved {
 		notify(h.readable)
 	}
